@@ -2,9 +2,14 @@
    fuel-indexed big-step interpreter over the call-tree unfolding.  It knows nothing
    about places, transitions, scans or callback tables.  Model support file. *)
 From PFDL Require Export Unfold Expr.
+From RecordUpdate Require Export RecordSet.
+Export RecordSetNotations.
 
 (* ---- observable log ---- *)
 Inductive nkind := TS | TF | SS | SF.
+
+Definition nkind_eqb (a b : nkind) : bool :=
+  match a, b with TS, TS | TF, TF | SS, SS | SF, SF => true | _, _ => false end.
 
 Record notif := {
   n_kind : nkind;
@@ -16,7 +21,10 @@ Record notif := {
 }.
 
 Inductive entry :=
-| ENotif (n : notif) (running : bool)   (* a notification, with [running] sampled inside it *)
+| ENotif (l : nat) (n : notif) (running : bool)
+    (* registered function l invoked with notification n; [running] sampled inside it *)
+| EObs (o : nat) (k : nkind) (nm : name) (id : nat) (order_finished : bool)
+    (* observer o received the LOG_EVENT entry for a notification *)
 | EQuery (v : name) (ctx : nat).        (* variable_access_function(v, ctx) *)
 
 (* ---- run-time state of one statement occurrence ---- *)
@@ -32,15 +40,19 @@ Inductive rst :=
 Definition is_done (s : rst) : bool := match s with RDone => true | _ => false end.
 
 (* ---- scheduler bookkeeping ---- *)
-Record G := {
+Record G := mkG {
   g_tid : nat;              (* next task identifier *)
   g_sid : nat;              (* next service identifier *)
   g_q : nat;                (* oracle calls so far *)
   g_ss : nat;               (* service starts so far *)
   g_awaited : list nat;     (* identifiers of announced, uncompleted services *)
   g_running : bool;
+  g_ls : list (nkind * nat);(* registered functions, in registration order *)
+  g_obs : list nat;         (* attached observers, in attachment order *)
   g_log : list entry        (* newest first *)
 }.
+#[export] Instance etaG : Settable _ :=
+  settable! mkG <g_tid; g_sid; g_q; g_ss; g_awaited; g_running; g_ls; g_obs; g_log>.
 
 Definition M (A : Type) := G -> res (A * G).
 Definition ret {A} (a : A) : M A := fun g => Ok (a, g).
@@ -57,30 +69,29 @@ Definition fail_fuel {A} : M A := fun _ => Fuel.
 Notation "x <- m ;; k" := (bind m (fun x => k)) (at level 61, m at next level, right associativity).
 Notation "m ;;; k" := (bind m (fun _ => k)) (at level 61, right associativity).
 
-Definition log_entry (e : entry) : M unit :=
-  fun g => Ok (tt, {| g_tid := g_tid g; g_sid := g_sid g; g_q := g_q g; g_ss := g_ss g;
-                      g_awaited := g_awaited g; g_running := g_running g;
-                      g_log := e :: g_log g |}).
-Definition emit (n : notif) : M unit :=
-  fun g => log_entry (ENotif n (g_running g)) g.
-Definition fresh_t : M nat :=
-  fun g => Ok (g_tid g, {| g_tid := S (g_tid g); g_sid := g_sid g; g_q := g_q g; g_ss := g_ss g;
-                           g_awaited := g_awaited g; g_running := g_running g; g_log := g_log g |}).
-Definition fresh_s : M nat :=
-  fun g => Ok (g_sid g, {| g_tid := g_tid g; g_sid := S (g_sid g); g_q := g_q g; g_ss := g_ss g;
-                           g_awaited := g_awaited g; g_running := g_running g; g_log := g_log g |}).
-Definition tick_ss : M nat :=
-  fun g => Ok (g_ss g, {| g_tid := g_tid g; g_sid := g_sid g; g_q := g_q g; g_ss := S (g_ss g);
-                          g_awaited := g_awaited g; g_running := g_running g; g_log := g_log g |}).
-Definition set_q (k : nat) : M unit :=
-  fun g => Ok (tt, {| g_tid := g_tid g; g_sid := g_sid g; g_q := k; g_ss := g_ss g;
-                      g_awaited := g_awaited g; g_running := g_running g; g_log := g_log g |}).
-Definition set_awaited (l : list nat) : M unit :=
-  fun g => Ok (tt, {| g_tid := g_tid g; g_sid := g_sid g; g_q := g_q g; g_ss := g_ss g;
-                      g_awaited := l; g_running := g_running g; g_log := g_log g |}).
-Definition set_running (b : bool) : M unit :=
-  fun g => Ok (tt, {| g_tid := g_tid g; g_sid := g_sid g; g_q := g_q g; g_ss := g_ss g;
-                      g_awaited := g_awaited g; g_running := b; g_log := g_log g |}).
+Definition log_entries (es : list entry) : M unit :=
+  fun g => Ok (tt, g <| g_log := rev es ++ g_log g |>).
+Definition log_entry (e : entry) : M unit := log_entries [e].
+
+Definition listeners_of (k : nkind) (ls : list (nkind * nat)) : list nat :=
+  map snd (filter (fun p => nkind_eqb (fst p) k) ls).
+
+(* on_task_started / on_service_started / on_service_finished / on_task_finished:
+   every registered function of that kind, in registration order, then one LOG_EVENT
+   entry to every attached observer, in attachment order *)
+Definition emit_gen (n : notif) (order_finished : bool) : M unit :=
+  fun g =>
+    log_entries
+      (map (fun l => ENotif l n (g_running g)) (listeners_of (n_kind n) (g_ls g))
+       ++ map (fun o => EObs o (n_kind n) (n_name n) (n_id n) order_finished) (g_obs g)) g.
+Definition emit (n : notif) : M unit := emit_gen n false.
+
+Definition fresh_t : M nat := fun g => Ok (g_tid g, g <| g_tid := S (g_tid g) |>).
+Definition fresh_s : M nat := fun g => Ok (g_sid g, g <| g_sid := S (g_sid g) |>).
+Definition tick_ss : M nat := fun g => Ok (g_ss g, g <| g_ss := S (g_ss g) |>).
+Definition set_q (k : nat) : M unit := fun g => Ok (tt, g <| g_q := k |>).
+Definition set_awaited (l : list nat) : M unit := fun g => Ok (tt, g <| g_awaited := l |>).
+Definition set_running (b : bool) : M unit := fun g => Ok (tt, g <| g_running := b |>).
 Definition await (id : nat) : M unit := fun g => set_awaited (g_awaited g ++ [id]) g.
 Definition unawait (id : nat) : M unit :=
   fun g => match remove_first (Nat.eqb id) (g_awaited g) with
@@ -398,18 +409,21 @@ Section Sem.
 
   Definition root_site : site := {| st_task := production_task; st_path := [] |}.
 
+  Definition default_listeners : list (nkind * nat) := [(TS, 0); (TF, 0); (SS, 0); (SF, 0)].
   Definition g0 : G :=
-    {| g_tid := 0; g_sid := 0; g_q := 0; g_ss := 0; g_awaited := []; g_running := false; g_log := [] |}.
+    {| g_tid := 0; g_sid := 0; g_q := 0; g_ss := 0; g_awaited := []; g_running := false;
+       g_ls := default_listeners; g_obs := []; g_log := [] |}.
   Definition sched0 : sched := {| sc_g := g0; sc_root := None |}.
 
-  Definition clear_log (g : G) : G :=
-    {| g_tid := g_tid g; g_sid := g_sid g; g_q := g_q g; g_ss := g_ss g;
-       g_awaited := g_awaited g; g_running := g_running g; g_log := [] |}.
+  Definition clear_log (g : G) : G := g <| g_log := [] |>.
 
   Inductive apicall :=
   | AStart                      (* Scheduler.start() *)
   | AFinish (id : nat)          (* fire_event(service_finished, id) *)
-  | AJunk.                      (* any other event: unknown / internal type / malformed *)
+  | AJunk                       (* any other event: unknown / internal type / malformed *)
+  | ARegister (k : nkind) (l : nat)   (* register_callback_<k>(function l) *)
+  | AAttach (o : nat)
+  | ADetach (o : nat).
 
   (* what a caller can observe about one API call *)
   Record callrec := {
@@ -429,7 +443,7 @@ Section Sem.
 
   Definition finish_root : M unit :=
     (* on_task_finished(production task): user callbacks run while running is still True *)
-    emit (mk TF production_task root_site 0 None []) ;;; set_running false.
+    emit_gen (mk TF production_task root_site 0 None []) true ;;; set_running false.
 
   Definition api_call (f : nat) (body : list xstmt) (s : sched) (c : apicall)
       : res (bool * sched) :=
@@ -469,6 +483,16 @@ Section Sem.
         end
       else Ok (false, {| sc_g := g; sc_root := sc_root s |})
     | AJunk => Ok (false, {| sc_g := g; sc_root := sc_root s |})
+    | ARegister k l =>
+      if existsb (fun p => nkind_eqb (fst p) k && Nat.eqb (snd p) l) (g_ls g)
+      then Ok (false, {| sc_g := g; sc_root := sc_root s |})
+      else Ok (true, {| sc_g := g <| g_ls := g_ls g ++ [(k, l)] |>; sc_root := sc_root s |})
+    | AAttach o => Ok (true, {| sc_g := g <| g_obs := g_obs g ++ [o] |>; sc_root := sc_root s |})
+    | ADetach o =>
+      match remove_first (Nat.eqb o) (g_obs g) with
+      | Some l => Ok (true, {| sc_g := g <| g_obs := l |>; sc_root := sc_root s |})
+      | None => Exn ValueError
+      end
     end.
 
   (* run a whole script of API calls; one record per call *)
